@@ -22,7 +22,7 @@ RULE = ('generated configurations (rule lists mixing dict / regex / callable rul
 EXHAUSTIVE = {'quick': False, 'thorough': False}
 ASSUMPTIONS = [
     'unicodedata.normalize("NFC") is outside the model: the model receives the normalised string',
-    'Python re implements the four pattern shapes of the twin family and m.expand as modelled (rx_match / expand)',
+    'Python re implements the six pattern shapes (two of them look at the character before the position) of the twin family and m.expand as modelled (rx_match / expand)',
     'str.isalpha / str.isspace tables are taken from the running interpreter (Gen/GenEncChars.v)',
     'keep rule: the token extent model (Enc/Partial.v tok_extent) is validated only by this correspondence; the '
     'default parsing-state constants are regenerated and the generator fails closed if a hard-wired default changes',
@@ -62,6 +62,10 @@ def _w_rx(r):
         return [1, r[1], r[2], r[3]]
     if k == 'rep':
         return [2, r[1], r[2]]
+    if k == 'nafter':
+        return [4, r[1], r[2]] + w_str(r[3])
+    if k == 'bol':
+        return [5] + w_str(r[1])
     return [3] + w_str(r[1]) + [r[2], r[3]] + w_str(r[4])
 
 
@@ -133,6 +137,10 @@ def _mk_regex(r):
         return re.compile('[%s-%s]{%d,}' % (re.escape(chr(r[1])), re.escape(chr(r[2])), r[3]))
     if k == 'rep':
         return re.compile('%s{%d}' % (re.escape(chr(r[1])), r[2]))
+    if k == 'nafter':                                   # looks at the character before the position
+        return re.compile('(?<![%s-%s])%s' % (re.escape(chr(r[1])), re.escape(chr(r[2])), re.escape(r[3])))
+    if k == 'bol':                                      # start of the whole string only
+        return re.compile('^' + re.escape(r[1]))
     return re.compile(re.escape(r[1]) + '([%s-%s]+)' % (re.escape(chr(r[2])), re.escape(chr(r[3]))) + re.escape(r[4]))
 
 
@@ -388,7 +396,8 @@ def _in_contract(d):
         b = r['body']
         if b[0] == 'regex':
             for rx, repl in b[1]:
-                if (rx[0] == 'lit' and rx[1] == '') or (rx[0] in ('cls', 'rep') and rx[-1] == 0):
+                if (rx[0] in ('lit', 'bol') and rx[1] == '') or (rx[0] == 'nafter' and rx[3] == '') \
+                        or (rx[0] in ('cls', 'rep') and rx[-1] == 0):
                     return False
                 if repl[0] == 'templ' and 'g1' in repl[1] and rx[0] != 'grp':
                     return False
@@ -526,8 +535,13 @@ def _rand_rx(rnd, contract):
     if k < 0.55:
         lo, hi = rnd.choice([(65, 90), (97, 122), (48, 57), (97, 99), (65, 65)])
         return ['cls', lo, hi, rnd.choice([1, 2, 2, 3] + ([] if contract else [0]))]
-    if k < 0.75:
+    if k < 0.68:
         return ['rep', ord(rnd.choice('.-a* \\')), rnd.choice([1, 2, 3, 3] + ([] if contract else [0]))]
+    if k < 0.78:                                        # left context: (?<![lo-hi])lit
+        lo, hi = rnd.choice([(65, 90), (97, 122), (48, 57), (97, 99), (45, 46)])
+        return ['nafter', lo, hi, rnd.choice(['a', 'ab', 'A', '.', '-', 'é', '1', 'b'] + ([] if contract else ['']))]
+    if k < 0.84:                                        # ^lit
+        return ['bol', rnd.choice(['a', 'ab', '-', 'é', 'A', '.'] + ([] if contract else ['']))]
     lo, hi = rnd.choice([(97, 122), (65, 90), (48, 57), (97, 100)])
     return ['grp', rnd.choice(['<', '', '\\', 'é', '(']), lo, hi, rnd.choice(['>', '', 'a', 'ab', ')', 'z9'])]
 
@@ -627,6 +641,12 @@ def gen_cases(seed, tier):
                                                  [['rep', 46, 3], ['templ', [['lit', '\\ldots']]]]]]}] + DEFAULT_RULES,
               s='The ABC of X... é'),
         _base([{'prot': None, 'body': ['regex', [[['cls', 97, 122, 0], ['templ', [['lit', 'x']]]]]]}], s='1'),   # empty match
+        # patterns that look at what stands BEFORE the position (look-behind, ^): rx.match(s, pos), not rx.match(s[pos:])
+        _base([{'prot': None, 'body': ['regex', [[['nafter', 97, 122, 'A'], ['templ', [['lit', '{'], 'g0', ['lit', '}']]]]]]}],
+              s='mA xA A.AA'),
+        _base([{'prot': None, 'body': ['regex', [[['bol', '-'], ['templ', [['lit', '\\textendash ']]]]]]}], s='-a-b--'),
+        _base([{'prot': None, 'body': ['regex', [[['nafter', 48, 57, '.'], ['wrap', '<', '>']], [['bol', 'a'], ['wrap', '[', ']']]]]}]
+              + DEFAULT_RULES, s='a1.5 . a.é'),
         _base([{'prot': None, 'body': ['callable', ['set', '1', 0, 'x']]}], s='1'),                              # consumed 0
         _base([{'prot': 'none', 'body': ['callable', ['set', 'a', 50, '\\x']]}] + DEFAULT_RULES, s='éaé'),       # beyond the end
     ]
